@@ -6,7 +6,7 @@
    All theorems are for ALL device scripts (made of bytes), ALL receivers / controllers and ALL
    interleavings: every label list accepted by `step` from the initial state. *)
 From Coq Require Import Sorted.
-From Cam Require Import Outcome Bytes Ack Stream Payload StreamLoop FrameSpec P_C12.
+From Cam Require Import Outcome Bytes Ack Stream Payload StreamLoop FrameSpec P_C12 AsyncPool P_C12p.
 
 (* one iteration, for every content of the (reused) buffers: what the loop sends after all its
    transfers completed is exactly what the frame made of these transfers gives -- PayloadBuilder::build
@@ -188,3 +188,86 @@ Theorem C12_submitted_slices_inside : forall sc cp cb ls s buf k,
      zsum (firstn (k - 1) (psizes (st_prm s))) + sz <= zlen buf).
 Proof. exact submitted_slices_inside. Qed.
 Print Assumptions C12_submitted_slices_inside.
+
+(* the per-frame transfer bookkeeping (first_buf_len / last_buf_len / payload_len / contiguity = the
+   list ds of data polled so far) never outlives its frame: the poll loop is entered with nothing,
+   every poll error or time-out leaves it for a position that carries nothing of the frame, and while
+   polling ds is exactly what the script delivered since this iteration began *)
+Theorem C12_poll_starts_fresh : forall s len s' buf ds, step true s (LSubmitOk len) = Some s' ->
+  st_pos s' = LPoll buf ds -> ds = [].
+Proof. exact poll_starts_fresh. Qed.
+Print Assumptions C12_poll_starts_fresh.
+
+Theorem C12_poll_error_abandons : forall s l s', step true s l = Some s' ->
+  (l = LPollTimeout \/ exists c, l = LPollErr c) ->
+  exists c, st_pos s' = LSend (IErr c) None /\ g_cur (st_g s') = None.
+Proof. exact poll_error_abandons. Qed.
+Print Assumptions C12_poll_error_abandons.
+
+Theorem C12_bookkeeping_per_frame : forall sc cp cb ls s buf ds,
+  script_ok sc -> run true (init sc cp cb) ls = Some s -> st_pos s = LPoll buf ds ->
+  g_consumed (st_g s) = (g_istart (st_g s) + length ds)%nat /\
+  firstn (length ds) (skipn (g_istart (st_g s)) sc) = map XData ds.
+Proof. exact bookkeeping_per_frame. Qed.
+Print Assumptions C12_bookkeeping_per_frame.
+
+(* what payload() shows of a delivered payload is a prefix of the payload bytes received in the
+   transfers of THAT frame (valid payload size <= bytes received for this frame), whatever faults
+   hit the frames before it *)
+Theorem C12_valid_le_received : forall sc cp cb ls s,
+  script_ok sc -> run true (init sc cp cb) ls = Some s ->
+  forall e p ds, In e (g_hist (st_g s)) -> a_item e = IOk p -> a_ds e = Some ds ->
+  let data := contig (psizes (a_prm e)) (removelast (tl ds)) in
+  exists pl, view_payload p = Ok pl /\ zlen pl <= zlen data /\ pl = take (zlen pl) data.
+Proof. exact valid_le_received. Qed.
+Print Assumptions C12_valid_le_received.
+
+(* ---- the AsyncPool of device/src/u3v/async_read.rs (model/AsyncPool.v, proofs/P_C12p.v) -------------
+   For ALL submission plans of the device (which libusb_submit_transfer calls are refused, how and
+   when accepted transfers complete) and ALL sequences of submit / poll / pending / cancel_all /
+   drop / new operations: *)
+
+(* every transfer in `pending` was accepted by libusb *)
+Theorem C12_pool_pending_accepted : forall pl ops s out b,
+  pool_run false (pinit pl) ops = Some (s, out, b) ->
+  forall q, p_pool s = Some q -> Forall accepted_by_libusb q.
+Proof. exact pool_pending_accepted. Qed.
+Print Assumptions C12_pool_pending_accepted.
+
+(* poll returns completions in submission order: what has been returned so far, followed by what
+   is pending, is exactly the accepted transfers 0, 1, ..., k-1 in order *)
+Theorem C12_pool_poll_fifo : forall pl ops s out b,
+  pool_run false (pinit pl) ops = Some (s, out, b) ->
+  exists k, p_accepted s = Z.of_nat k /\ p_reaped s ++ map sl_no (pending_of s) = nums k.
+Proof. exact pool_poll_fifo. Qed.
+Print Assumptions C12_pool_poll_fifo.
+
+(* a refused submit reports the error and leaves the pool unchanged *)
+Theorem C12_pool_refused_submit_unchanged : forall s q len code rest,
+  p_plan s = PRefuse code :: rest ->
+  let '(s', out) := submit false s q len in
+  p_pool s' = Some q /\ p_accepted s' = p_accepted s /\ p_reaped s' = p_reaped s /\
+  p_completed s' = p_completed s /\ p_refused s' = p_refused s + 1 /\
+  out = match err_class code with Some c => [1; c] | None => [2] end.
+Proof. exact pool_refused_submit_unchanged. Qed.
+Print Assumptions C12_pool_refused_submit_unchanged.
+
+(* dropping the pool terminates: it waits for exactly the transfers in `pending`, all of which
+   libusb accepted and completes once cancelled, reaps them in order and leaves nothing behind *)
+Theorem C12_pool_drop_terminates : forall pl ops s out b q,
+  pool_run false (pinit pl) ops = Some (s, out, b) -> p_pool s = Some q ->
+  exists s', pool_drop s q = Some s' /\ p_pool s' = None /\ p_reaped s' = p_reaped s ++ map sl_no q /\
+             p_accepted s' = p_accepted s.
+Proof. exact pool_drop_terminates. Qed.
+Print Assumptions C12_pool_drop_terminates.
+
+(* no operation sequence wedges (None = an operation that never returns) *)
+Theorem C12_pool_ops_terminate : forall pl ops, pool_run false (pinit pl) ops <> None.
+Proof. exact pool_ops_terminate. Qed.
+Print Assumptions C12_pool_ops_terminate.
+
+(* what these exclude: with the transfer pushed onto `pending` before libusb accepted it, one
+   refused submission and the drop of the pool never returns *)
+Theorem C12_pool_push_first_wedges : pool_run true (pinit [PRefuse (-11)]) [(1, 16); (5, 0)] = None.
+Proof. exact pool_push_first_wedges. Qed.
+Print Assumptions C12_pool_push_first_wedges.
